@@ -115,6 +115,22 @@ func vhGenDag(n int, hostile bool, maxParents int) *vhDag {
 func VH_C03_read() {
 	n := 1 + rt.Choose(rt.Param("N", 4))
 	d := vhGenDag(n, true, rt.Param("MAXP", 2))
+	vhReadBody(d, n)
+}
+
+// VH_C03_read_deep: the same oracle on the deeper produced shapes of vhDeepShapes (a plain
+// commit on top of a merge, stacked merges, a merge of merges), with arbitrary clocks and
+// pack ids: shapes the exhaustive bound of VH_C03_read does not reach.
+func VH_C03_read_deep() {
+	vhFixedShape = vhDeepShapes[rt.Choose(rt.Param("DEEP", len(vhDeepShapes)))]
+	defer func() { vhFixedShape = nil }()
+	n := len(vhFixedShape)
+	d := vhGenDag(n, false, 2)
+	rt.Cover("deep-shape")
+	vhReadBody(d, n)
+}
+
+func vhReadBody(d *vhDag, n int) {
 	head := n - 1
 	d.repo.SetRef("refs/foos/x", d.hash[head])
 	valid := d.i1Valid(head)
